@@ -40,6 +40,7 @@ type c10Op struct {
 	CT        int     `json:"ct,omitempty"`      // Open: index of the Seal op whose output is opened
 	Corrupt   int     `json:"corrupt,omitempty"` // Open: >0 flips bit Corrupt-1 of a copy of the ciphertext (failure expected)
 	WrongAAD  bool    `json:"wrong_aad,omitempty"`
+	OnPool    bool    `json:"on_pool,omitempty"` // Open in place on the pooled (long-lived) ciphertext buffer itself, not on a scratch copy
 	Dst       dstSpec `json:"dst"`
 	Repeat    bool    `json:"repeat,omitempty"`
 	Dec       bool    `json:"dec,omitempty"`
@@ -150,8 +151,13 @@ func (c10) Generate(idx int, r *core.Rand, tier string) core.Script {
 	if w.Chance(1, 6) {
 		s.Prior = append(s.Prior, genAEADSpec(w))
 	}
+	big := w.Chance(1, 40) // records of several kilobytes (pooled-buffer thresholds, many kernel rounds)
 	for i := w.Range(1, 3); i > 0; i-- {
-		s.Msgs = append(s.Msgs, c10Buf{Len: c10GenLen(w), Seed: w.Uint64(), Zero: w.Chance(1, 10)})
+		l := c10GenLen(w)
+		if big {
+			l = w.PickInt(4096, 4097, 4200, 5000, 8192, 9001)
+		}
+		s.Msgs = append(s.Msgs, c10Buf{Len: l, Seed: w.Uint64(), Zero: w.Chance(1, 10)})
 	}
 	for i := w.Range(1, 2); i > 0; i-- {
 		s.AADs = append(s.AADs, c10Buf{Len: w.PickInt(0, 0, 1, 13, 16, 17, 32, 100, 129), Seed: w.Uint64()})
@@ -177,6 +183,12 @@ func (c10) Generate(idx int, r *core.Rand, tier string) core.Script {
 			}
 			op.Dst = genDst(w, s.Msgs[op.M].Len, true)
 			op.Repeat = w.Chance(1, 3)
+			if op.Corrupt > 0 && w.Chance(1, 2) {
+				// a receiver that decrypts in place in its own long-lived buffer and gets a forged
+				// record: the buffer stays in the pool and must never change afterwards
+				op.OnPool, op.Repeat = true, false
+				op.Dst = dstSpec{Mode: "inplace", Spare: 0}
+			}
 		case k == 2:
 			op.Kind = "Sum"
 			op.Dst = genDst(w, 32, false)
@@ -366,10 +378,11 @@ func (c10) Execute(sc core.Script, keep bool) *core.Result {
 				var out, prefix, dst, scratch []byte
 				exempt := ""
 				p, txt, _, _ := core.Catch(func() {
-					if op.Dst.Mode == "inplace" {
-						scratch = slackBuf(len(pt), len(pt)+op.Dst.Spare)
-						copy(scratch, pt)
-						out = a.Seal(scratch[:0], nonce, scratch, aad)
+					if strings.HasPrefix(op.Dst.Mode, "inplace") {
+						var d0, in0 []byte
+						scratch, d0, in0 = inplaceBuf(op.Dst, pt)
+						prefix = append([]byte{}, d0...)
+						out = a.Seal(d0, nonce, in0, aad)
 					} else {
 						dst = mkDst(op.Dst)
 						prefix = append([]byte{}, dst...)
@@ -389,6 +402,13 @@ func (c10) Execute(sc core.Script, keep bool) *core.Result {
 				if op.Dst.Mode == "fresh" && !bytes.Equal(dst, prefix) {
 					report("input-modified", "Seal", "dst-prefix", param, "bytes of dst[:len(dst)] changed")
 					return nil
+				}
+				if strings.HasPrefix(op.Dst.Mode, "inplace") {
+					// header in front unchanged (what lies behind the result is spare capacity of dst: not judged)
+					if !bytes.Equal(scratch[:len(prefix)], prefix) {
+						report("input-modified", "Seal", "dst-prefix", param, "the header bytes in front of the in-place plaintext changed")
+						return nil
+					}
 				}
 				if op.Dst.Mode == "fresh" && len(out) > 0 && len(dst) <= cap(dst) && cap(dst)-len(dst) >= needed {
 					if &out[0] == &dst[:1][0] {
@@ -456,14 +476,21 @@ func (c10) Execute(sc core.Script, keep bool) *core.Result {
 				var err error
 				exempt := ""
 				p, txt, _, _ := core.Catch(func() {
-					if op.Dst.Mode == "inplace" {
-						scratch = slackBuf(len(ct), len(ct)+op.Dst.Spare)
-						copy(scratch, ct)
-						full := scratch[:cap(scratch)]
-						for j := len(ct); j < len(full); j++ {
-							full[j] = byte(0x3C ^ j)
-						}
-						out, err = a.Open(scratch[:0], nonce, scratch, aad)
+					if op.OnPool && op.Corrupt > 0 {
+						// in place in the pooled buffer itself (a rejected message leaves it unchanged,
+						// which the pool snapshot checks now and after every later operation)
+						scratch = ct
+						out, err = a.Open(ct[:0], nonce, ct, aad)
+						// dst overlaps the input here, and the AEAD contract lets a failing Open
+						// overwrite dst up to its capacity: whatever the buffer holds now is its new
+						// reference content. From now on nothing may change it (a library that keeps
+						// using the caller's buffer after the call returned is caught by later steps).
+						pl.snap[ctName] = append([]byte{}, ct[:cap(ct)]...)
+					} else if strings.HasPrefix(op.Dst.Mode, "inplace") {
+						var d0, in0 []byte
+						scratch, d0, in0 = inplaceBuf(op.Dst, ct)
+						prefix = append([]byte{}, d0...)
+						out, err = a.Open(d0, nonce, in0, aad)
 					} else {
 						dst = mkDst(op.Dst)
 						prefix = append([]byte{}, dst...)
@@ -490,21 +517,20 @@ func (c10) Execute(sc core.Script, keep bool) *core.Result {
 					report("input-modified", "Open", "dst-prefix", param, "bytes of dst[:len(dst)] changed")
 					return nil, nil
 				}
-				if op.Dst.Mode == "inplace" {
-					// the destination overlaps the ciphertext exactly on its first len(plaintext)
-					// bytes; the received tag behind it, and the memory behind the ciphertext,
-					// are not output
-					if needed <= len(ct) && !bytes.Equal(scratch[needed:len(ct)], ct[needed:]) {
-						report("input-modified", "Open", "ciphertext-tag", param, fmt.Sprintf("in-place Open changed the tag bytes behind the plaintext: %x -> %x", ct[needed:], scratch[needed:len(ct)]))
+				if strings.HasPrefix(op.Dst.Mode, "inplace") {
+					// the output region overlaps the ciphertext exactly on its first len(plaintext)
+					// bytes; the header in front, the received tag behind the plaintext, and the
+					// memory behind the ciphertext are not output
+					l := len(prefix)
+					if !bytes.Equal(scratch[:l], prefix) {
+						report("input-modified", "Open", "dst-prefix", param, "the header bytes in front of the in-place ciphertext changed")
 						return nil, nil
 					}
-					full := scratch[:cap(scratch)]
-					for j := len(ct); j < len(full); j++ {
-						if full[j] != byte(0x3C^j) {
-							report("input-modified", "Open", "ciphertext-spare-capacity", param, fmt.Sprintf("in-place Open wrote %d byte(s) behind the ciphertext", j-len(ct)+1))
-							return nil, nil
-						}
+					if needed <= len(ct) && !bytes.Equal(scratch[l+needed:l+len(ct)], ct[needed:]) {
+						report("input-modified", "Open", "ciphertext-tag", param, fmt.Sprintf("in-place Open changed the tag bytes behind the plaintext: %x -> %x", ct[needed:], scratch[l+needed:l+len(ct)]))
+						return nil, nil
 					}
+					// bytes behind the ciphertext are spare capacity of dst: not judged (DESIGN 5.2)
 				}
 				checkPool("Open", exempt, param)
 				return out, err
